@@ -17,7 +17,11 @@ Variants == << [axis |-> 0, pre |-> 0, post |-> 0, dtype |-> "int16", fill |-> 0
                [axis |-> 1, pre |-> 2, post |-> 0, dtype |-> "int32", fill |-> 0, fillarg |-> <<>>, pick |-> <<0>>],
                \* mixed: the first block handed over has a narrower dtype of the same kind than the others (the mosaic has their common type)
                [axis |-> 0, pre |-> 0, post |-> 0, dtype |-> "int16", fill |-> 0, fillarg |-> <<>>, pick |-> <<>>, mixed |-> "int8"],
-               [axis |-> 0, pre |-> 0, post |-> 2, dtype |-> "uint16", fill |-> 0, fillarg |-> <<>>, pick |-> <<>>, mixed |-> "uint8"] >>
+               [axis |-> 0, pre |-> 0, post |-> 2, dtype |-> "uint16", fill |-> 0, fillarg |-> <<>>, pick |-> <<>>, mixed |-> "uint8"],
+               \* a fill value the blocks' own type cannot hold: absent tiles must still carry exactly that value (the result is of a wider type)
+               [axis |-> 0, pre |-> 0, post |-> 0, dtype |-> "int16", fill |-> 40000, fillarg |-> <<40000>>, pick |-> <<>>],
+               [axis |-> 1, pre |-> 2, post |-> 0, dtype |-> "int8", fill |-> 200, fillarg |-> <<200>>, pick |-> <<>>],
+               [axis |-> 0, pre |-> 0, post |-> 2, dtype |-> "uint8", fill |-> 300, fillarg |-> <<300>>, pick |-> <<>>] >>
 CasesFor(ny, nx) == LET chy == Lay(ny) chx == Lay(nx) H == SumSeq(chy) W == SumSeq(chx) IN
   {[chy |-> chy, chx |-> chx, present |-> SetToSeq(p), win |-> w] @@
      Variants[((Cardinality(p) + w[1] + 2 * w[2] + 3 * w[3] + 5 * w[4]) % Len(Variants)) + 1] :
